@@ -18,8 +18,8 @@ class PreErr(Exception):
 
 
 def gen_cfg(rng, overload=False):
-    b = rng.choice([2, 2, 3, 5]) if not overload else rng.choice([2, 3])
-    wait = rng.choice([0, 0.5, 5.0])
+    b = rng.choice([0, 1, 2, 2, 2, 3, 3, 5]) if not overload else rng.choice([2, 3])
+    wait = rng.choice([0, 0.5, 5.0]) if b >= 2 else 0      # the constructor requires batch_wait_time 0 without batching
     n = rng.choice([1, 1, 2, 3, 5, 8, 12]) if not overload else rng.choice([30, 40])
     t = 0.0
     arrivals = []
@@ -46,7 +46,7 @@ def run_batch(cfg, strategy, max_steps=80000):
     from mpservice.multiprocessing.remote_exception import RemoteException
     _worker.logger.setLevel(logging.ERROR)
     S = detsched.Sched(strategy, max_steps=max_steps)
-    S.keep_log = cfg['nworkers'] == 1
+    S.keep_log = cfg['nworkers'] == 1 and cfg['b'] >= 2
     poison = set(cfg.get('poison', []))
     stall = cfg.get('stall_after_full', 0)
     b, wait = cfg['b'], cfg['wait']
@@ -115,6 +115,11 @@ def run_batch(cfg, strategy, max_steps=80000):
 
             def call(self, xs):
                 calls.append([self.worker_index, S.clock, list(xs) if isinstance(xs, list) else xs])
+                if not isinstance(xs, list):
+                    S.yield_point('call')
+                    if xs in poison:
+                        raise ValueError('poisoned input')
+                    return xs * 10
                 S.ev('call', '', len(xs))
                 if poison and any(x in poison for x in xs):
                     raise ValueError('poisoned batch')
@@ -233,11 +238,106 @@ def project(S):
 def coq_case(r):
     from .core import clist, cnat, cz
     c = r['cfg']
+    if r.get('events') is None:
+        return '(2%nat, [], [], [], [], 1%nat)'       # run without an event log (several workers, or no batching): not replayed
     kinds = [{'x': 0, 'exc': 1, 'pre': 2}[a[2]] for a in c['arrivals']]
     evs = clist(r['events'], lambda e: f'({cnat(e[0])}, {cnat(e[1])}, {cz(e[2])})')
     calls = clist([cl[2] for cl in r['calls']], lambda l: clist(l, cnat))
     verdict = 0 if (r['verdict'] == 'ok' and r['outcome'] == ['finished']) else 1
     return f"({cnat(c['b'])}, {clist(kinds, cnat)}, {clist(c.get('poison', []), cnat)}, {evs}, {calls}, {cnat(verdict)})"
+
+
+# ---- the timed policy of _get_input_batch in virtual time, single-threaded (differential check against
+# ---- coq/Model/EagerBatcher.v) ----------------------------------------------------------------------------
+
+class _Blocked(BaseException):
+    pass
+
+
+def gen_policy_case(rng):
+    bs = rng.choice([2, 2, 3, 3, 4, 5, 8])
+    w = rng.choice([0, 0, 1, 2, 3, 5, 10])
+    n = rng.choice([0, 1, 1, 2, 3, 4, 5, 6, 8, 10, 14, 20])
+    gaps = [0, 0, 0, 1, 1, 2, max(0, w - 1), w, w + 1, w + 2, 3 * w + 7]
+    t = rng.choice([0, 0, 1, 5])
+    arr = []
+    for i in range(n):
+        t += rng.choice(gaps)
+        arr.append([t, rng.randrange(0, 50)])
+    if rng.random() < 0.7:
+        arr.append([t + rng.choice(gaps), 'END'])
+    return {'bs': bs, 'w': w, 'style': 'none', 'arr': arr}
+
+
+def run_policy_case(case):
+    import queue as _q
+    import threading
+
+    from mpservice.mpserver import _worker
+    clock = {'now': 0}
+
+    class VQ:
+        def __init__(self):
+            self.arr = [(t, None if m == 'END' else (i + 1, m)) for i, (t, m) in enumerate(case['arr'])]
+
+        def get(self, block=True, timeout=None):
+            if not self.arr:
+                if timeout is None:
+                    raise _Blocked()
+                clock['now'] += timeout
+                raise _q.Empty
+            t, m = self.arr[0]
+            if timeout is None or t <= clock['now'] + timeout:
+                clock['now'] = max(clock['now'], t)
+                self.arr.pop(0)
+                return m
+            clock['now'] += timeout
+            raise _q.Empty
+
+        def put(self, z):
+            self.arr.append((clock['now'], z))
+
+    w = object.__new__(_worker.Worker)
+    w.batch_size, w.batch_wait_time = case['bs'], case['w']
+    w._batch_buffer = VQ()
+    w._batch_get_called = threading.Event()
+    saved = _worker.perf_counter
+    _worker.perf_counter = lambda: clock['now']
+    out = []
+    finished = False
+    try:
+        try:
+            while True:
+                b = w._get_input_batch()
+                if b is None:
+                    finished = True
+                    break
+                out.append([[v[1] for v in b], clock['now']])
+                if not w._batch_get_called.is_set():
+                    out.append([[-999], -1])        # the collector must be told that a batch was taken
+                w._batch_get_called.clear()
+        except _Blocked:
+            finished = False
+    finally:
+        _worker.perf_counter = saved
+    return {'finished': finished, 'batches': out}
+
+
+def policy_main(seed, n, outp, corpus):
+    import json
+
+    from .props import c19
+    rng = random.Random(seed)
+    cases = [c.get('cfg') or c.get('case') for c in corpus] + [gen_policy_case(rng) for _ in range(n)]
+    res = []
+    for c in cases:
+        try:
+            obs, err = run_policy_case(c), None
+        except Exception as e:  # noqa
+            obs, err = {'finished': False, 'batches': []}, f'{type(e).__name__}: {e}'
+        res.append({'case': c, 'cfg': c, 'obs': obs, 'crash': err, 'oracle': err or c19.oracle(c, obs), 'strategy': 'policy',
+                    'verdict': 'ok'})
+    json.dump(res, open(outp, 'w'))
 
 
 def make_strategy(rng):
@@ -255,6 +355,8 @@ def main(argv):
     what, seed, n, outp = argv[0], int(argv[1]), int(argv[2]), argv[3]
     rest = argv[4:]
     corpus = json.load(open(rest[0])) if rest else []
+    if what == 'policy':
+        return policy_main(seed, n, outp, corpus)
     rng = random.Random(seed)
     out = []
     for c in corpus:
